@@ -496,7 +496,7 @@ func (c C09Case) universe() *Universe {
 func isAndCase(c C09Case) bool { return !m.IsOr(c.Op) }
 
 func genC09(t *rapid.T) C09Case {
-	c := C09Case{Mask: rapid.IntRange(0, 15).Draw(t, "mask"), Events: rapid.IntRange(0, 2).Draw(t, "events"), Reach: rapid.Bool().Draw(t, "reach")}
+	c := C09Case{Mask: rapid.IntRange(0, 15).Draw(t, "mask"), Events: pickW(t, "events", 3, 3, 3, 1), Reach: rapid.Bool().Draw(t, "reach")}
 	switch pickW(t, "kind", 3, 2, 1, 6, 1, 2, 1) {
 	case 5:
 		c.Kind, c.Op, c.N = "argwide", rapid.SampledFrom([]string{"add", "mul", "and", "or", "eq", "c_sum", "sub"}).Draw(t, "op"), rapid.IntRange(100, 130).Draw(t, "n")
